@@ -126,7 +126,60 @@ def make_network(rng, tier, for_skel):
         links = [p['name'] for p in spec['pipes']]
         for k in range(rng.randint(0, 2)):
             spec['controls'].append({'kind': 'time', 'name': 'c%d' % k, 'time': 3600, 'target': rng.choice(links), 'attr': 'status', 'value': 'CLOSED'})
+        # conditional controls and rules with AND / OR trees over junction pressures, tank levels and pipe flows: everything a
+        # condition looks at, in whichever operand, must survive skeletonization (side stream seeded by the content)
+        import json as _json
+        import random as _random
+        import zlib as _zlib
+        side = _random.Random(_zlib.crc32(_json.dumps(spec, sort_keys=True, default=str).encode()))
+        if side.random() < 0.5:
+            juncs = [j['name'] for j in spec['junctions']]
+            tanks = [t['name'] for t in spec['tanks']]
+
+            def leaf():
+                u = side.random()
+                if u < 0.6 or not links:
+                    return {'kind': 'node', 'source': side.choice(juncs), 'attr': 'pressure', 'op': side.choice(['<', '>']), 'threshold': 15.0}
+                if u < 0.75 and tanks:
+                    return {'kind': 'node', 'source': side.choice(tanks), 'attr': 'level', 'op': '<', 'threshold': 2.0}
+                return {'kind': 'link', 'source': side.choice(links), 'attr': 'flow', 'op': '>', 'threshold': 0.001}
+            for k in range(side.randint(1, 2)):
+                cond = leaf()
+                for _ in range(side.choice([0, 1, 1, 2])):
+                    a, b = (cond, leaf()) if side.random() < 0.6 else (leaf(), cond)
+                    cond = {'kind': side.choice(['or', 'or', 'and']), 'a': a, 'b': b}
+                tgt = side.choice([p['name'] for p in spec['pumps']] or links)
+                if cond['kind'] == 'node' and side.random() < 0.5:
+                    spec['controls'].append({'kind': 'cond', 'name': 'cc%d' % k, 'source': cond['source'], 'sattr': cond['attr'], 'op': cond['op'],
+                                             'threshold': cond['threshold'], 'target': tgt, 'attr': 'status', 'value': 'OPEN'})
+                else:
+                    spec['controls'].append({'kind': 'rule', 'name': 'rr%d' % k, 'priority': 3, 'cond': cond,
+                                             'then': [{'target': tgt, 'attr': 'status', 'value': side.choice(['OPEN', 'CLOSED'])}]})
     return spec
+
+
+def required_by_controls(spec):
+    """(nodes, links) that some control or rule of the spec looks at or acts on - read off the spec, not asked of the model."""
+    nodes, links = set(), set()
+
+    def walk(cond):
+        if cond['kind'] in ('and', 'or'):
+            walk(cond['a'])
+            walk(cond['b'])
+        elif cond['kind'] == 'node':
+            nodes.add(cond['source'])
+        elif cond['kind'] == 'link':
+            links.add(cond['source'])
+    for cs in spec['controls']:
+        if cs['kind'] in ('time', 'cond'):
+            links.add(cs['target'])
+            if cs['kind'] == 'cond':
+                nodes.add(cs['source'])
+        elif cs['kind'] == 'rule':
+            walk(cs['cond'])
+            for a in cs['then'] + cs.get('else', []):
+                links.add(a['target'])
+    return nodes, links
 
 
 def run_case(c, rng):
@@ -365,9 +418,11 @@ def run_skel(c, rng):
     before = model_dict(wn)
     keep_nodes = set(n for n, o in wn.nodes() if o.node_type != 'Junction') | set(jex)
     keep_links = set(n for n, o in wn.links() if o.link_type != 'Pipe') | set(pex)
-    for cn, ctl in wn.controls():
-        for o in ctl.requires():
-            (keep_links if hasattr(o, 'link_type') else keep_nodes).add(o.name)
+    rn, rl = required_by_controls(spec)       # from the spec: the model's own requires() is part of what is under test
+    keep_nodes |= rn
+    keep_links |= rl
+    if any(cs['kind'] == 'rule' and cs['cond']['kind'] in ('and', 'or') for cs in spec['controls']):
+        c.count('skeletonizations_with_compound_rules')
     orig_nodes = list(wn.node_name_list)
     step = wn.options.time.pattern_timestep
     period = 1
